@@ -3,9 +3,10 @@ CONSTANTS
   N = 5
   MaxTrees = 2
   NW = 1
-  NT = 5
+  NT = 3
   Observe = TRUE
   ObserveFrom = 2
+  TrackDist = TRUE
   CacheChecksCount = TRUE
 INVARIANT CacheFresh
 INVARIANT GraphAgrees
